@@ -10,9 +10,11 @@ permutation-valued `order`, and `order_irrelevant` shows verdict and gas state d
 on it at all.
 -/
 import BytomModel.Lemmas.TxValidate
+import BytomModel.Lemmas.TxComplete
 
 namespace BytomModel.Props.C01
 open BytomModel.Fixed BytomModel.Gen.Checked BytomModel.Model.TxValidate BytomModel.Lemmas.TxValidate
+open BytomModel.Lemmas.TxComplete
 
 /-- `order` only permutes the map entries -/
 def IsOrder (order : PMap → PMap) : Prop := ∀ m, (order m).Perm m
@@ -338,6 +340,81 @@ theorem coinbase_tx_exact {ctx : Ctx} {order : PMap → PMap} {tx : Tx} {g : Gas
 example : validateTx ⟨1, 101, true⟩ btmLast
     ⟨1, 120, 0, [⟨.coinbase, 0, 0, true, 0, 4, 0⟩], [⟨.original, 0, 0, 0⟩, ⟨.original, 0, 570776255, 0⟩]⟩
     = .ok ⟨0, 0, 0, 0⟩ := by decide
+
+/-! ### completeness of the balance stage (no false rejections) -/
+
+theorem wrapI64_range (x : Int) : inI 64 (wrapI 64 x) := by
+  rw [inI64_iff]; unfold wrapI
+  simp only [Nat.reduceSub, Int.reducePow]
+  omega
+
+/-- **No false rejection by the balance logic**: if no source total exceeds MaxInt64, every
+    output amount is ≤ MaxInt64 and has a source of its asset, every non-BTM asset balances and
+    BTM sources cover BTM destinations, then the three loops of `case *bc.Mux` (checked adds,
+    checked subtractions, parity / setGas) all succeed — for every iteration order — and
+    report `BTMValue` = BTM in − BTM out. (What can still reject the transaction are the
+    input programs and the gas budget, which are inputs of the model.) -/
+theorem balance_stage_complete {order : PMap → PMap} (ho : IsOrder order) (tx : Tx)
+    (hsrc : ∀ a, srcTotal a tx ≤ maxInt64)
+    (hout : ∀ o ∈ tx.outputs, o.amount ≤ maxInt64 ∧ o.asset ∈ (tx.inputs.map (muxSource tx.outputs)).map Prod.fst)
+    (hbal : ∀ a, a ≠ btm → srcTotal a tx = totalOut a tx) (hbtm : totalOut btm tx ≤ srcTotal btm tx) :
+    ∃ m1 m2 g, addSources [] (tx.inputs.map (muxSource tx.outputs)) = .ok m1 ∧
+      subDests m1 (tx.outputs.map muxDest) = .ok m2 ∧
+      parityLoop (wrapI 64 tx.size) Gas.zero (order m2) = .ok g ∧
+      g.btmValue = srcTotal btm tx - totalOut btm tx := by
+  obtain ⟨m1, h1⟩ := addSources_complete (tx.inputs.map (muxSource tx.outputs)) [] inRange_nil nonNeg_nil (by
+    intro a
+    have := hsrc a
+    unfold srcTotal maxInt64 at this
+    simp only [pget, Option.getD_none]; omega)
+  obtain ⟨a1, a2, a3, a4, _⟩ := addSources_spec h1 inRange_nil (by simp [keys])
+  have hS : ∀ a, ((pget m1 a).getD 0 : Int) = (srcTotal a tx : Nat) := by
+    intro a; have := a3 a; simp [pget] at this; rw [this]; rfl
+  obtain ⟨m2, h2⟩ := subDests_complete (tx.outputs.map muxDest) m1 a1 (by
+    intro p hp
+    obtain ⟨o, ho', rfl⟩ := List.mem_map.mp hp
+    refine ⟨(hout o ho').1, ?_⟩
+    rw [a4]; exact Or.inr (hout o ho').2) (by
+    intro a
+    rw [hS a]
+    by_cases e : a = btm
+    · subst e; exact_mod_cast hbtm
+    · have := hbal a e; unfold totalOut at this; rw [this])
+  obtain ⟨b1, b2, b3, _, _⟩ := subDests_spec h2 a1 a2
+  have hval : ∀ a, ((pget m2 a).getD 0 : Int) = (srcTotal a tx : Int) - (totalOut a tx : Int) := by
+    intro a; rw [b3 a, hS a]; rfl
+  have hperm := ho m2
+  have hmem : ∀ p ∈ order m2, (p.1 = btm → 0 ≤ p.2) ∧ (p.1 ≠ btm → p.2 = 0) := by
+    intro p hp
+    obtain ⟨a, v⟩ := p
+    have hg := mem_pget b2 (hperm.subset hp)
+    have hv := hval a; rw [hg] at hv; simp only [Option.getD_some] at hv
+    constructor
+    · intro e; simp only at e; subst e; simp only; omega
+    · intro e; simp only at e ⊢; have := hbal a e; omega
+  obtain ⟨g, hg⟩ := parityLoop_complete (wrapI64_range tx.size) (order m2) Gas.zero hmem
+  refine ⟨m1, m2, g, h1, h2, hg, ?_⟩
+  -- the reported value, from the soundness lemma
+  have hn : (keys (order m2)).Nodup := (List.Perm.nodup_iff (hperm.map Prod.fst)).mpr b2
+  have hr : InRange' (order m2) := fun p hp => inRange'_of b1 b2 p (hperm.subset hp)
+  obtain ⟨_, c2, c3⟩ := parityLoop_ok hg hr
+  cases e : pget m2 btm with
+  | none =>
+    have hall : ∀ p ∈ order m2, p.1 ≠ btm := by
+      intro p hp c
+      have : btm ∈ keys m2 := c ▸ List.mem_map.mpr ⟨p, hperm.subset hp, rfl⟩
+      rw [pget_none_iff] at e; exact e this
+    rw [c2 hall]
+    have hv := hval btm; rw [e] at hv; simp only [Option.getD_none] at hv
+    show 0 = _
+    omega
+  | some v =>
+    have hm : (btm, v) ∈ order m2 := hperm.symm.subset (pget_mem e)
+    rw [c3 v hm hn]
+    have hv := hval btm; rw [e] at hv; simp only [Option.getD_some] at hv
+    have h0 := (hmem _ hm).1 rfl
+    simp only at h0
+    omega
 
 /-! ### the full statement and where the unchanged code breaks it -/
 
